@@ -1585,7 +1585,7 @@ func (dc *driverContextKerx4) transition(driver stateTableDriver, entry tables.A
 			o.YOffset = dc.c.font.emScaleY(action.MarkY) - dc.c.font.emScaleY(action.CurrentY)
 		}
 		o.attachType = attachTypeMark
-		o.attachChain = int16(dc.mark - buffer.idx)
+		o.attachChain = int32(dc.mark - buffer.idx)
 		buffer.scratchFlags |= bsfHasGPOSAttachment
 	}
 
